@@ -37,6 +37,21 @@ Theorem C02_exact_codec_outside_range_refuted :
 Proof. exact cut_outside_range_refuted. Qed.
 Print Assumptions C02_exact_codec_outside_range_refuted.
 
+(* together with the threshold theorem: through the exact-value codec a zero comes back below the threshold (hence as an exact zero) as soon as the
+   range the codec is sized for covers the placeholder, and a non-zero magnitude inside the range never does *)
+Theorem C02_zero_through_exact_codec : forall a ta b tb minlog e t rad median,
+  0 < e -> 0 <= t -> b + 1 < a -> tb <= ta -> e <= rad ->
+  Rabs (zero_placeholder a ta minlog e t - median) <= rad ->
+  exact_codec rad e median (zero_placeholder a ta minlog e t) < zero_threshold b tb minlog e t.
+Proof. exact zero_through_exact_codec. Qed.
+Print Assumptions C02_zero_through_exact_codec.
+
+Theorem C02_nonzero_through_exact_codec : forall b tb minlog e t rad median y,
+  0 < e -> 0 <= t -> 1 < b -> 0 <= tb -> e <= rad -> minlog <= y -> Rabs (y - median) <= rad ->
+  ~ exact_codec rad e median y < zero_threshold b tb minlog e t.
+Proof. exact nonzero_through_exact_codec. Qed.
+Print Assumptions C02_nonzero_through_exact_codec.
+
 (* the constants, the fixed back end of the sign plane on both sides, the exact fallback for unresolvable ratios,
    the private copy and the range loop of the accelerated path are read from the source on every run *)
 Theorem C02_source_facts : pwr_source_facts_ok = true.
